@@ -22,6 +22,9 @@ def main(mods, only=None):
     solve.discharge(obls)
     bad = 0
     for ob in obls:
+        if ob.kind == "cover-path":
+            if ob.status == "discharged": print("   (infeasible return path: %s)" % ob.name)
+            continue
         ok = (ob.status == "discharged") if ob.kind != "cover" else (ob.status != "discharged")
         if not ok: bad += 1
         if not ok or '-v' in sys.argv:
